@@ -57,7 +57,15 @@ pub fn check_string(s: &str, st: &mut Stats) -> Result<(), Failure> {
         st.nontrivial(fnv64(s.as_bytes()));
     }
     let b = TomlStringBuilder::new(s);
-    let styles: [(&str, Option<String>); 7] = [
+    let styles: [(&str, Option<String>); 10] = [
+        // the plain-string writers (what a caller gets without going through a builder)
+        ("str", Some({
+            let mut out = String::new();
+            let _ = <str as toml_write::WriteTomlValue>::write_toml_value(s, &mut out);
+            out
+        })),
+        ("String", Some(s.to_string().to_toml_value())),
+        ("Cow", Some(std::borrow::Cow::Borrowed(s).to_toml_value())),
         ("default", Some(b.as_default().to_toml_value())),
         ("basic", Some(b.as_basic().to_toml_value())),
         ("ml_basic", Some(b.as_ml_basic().to_toml_value())),
@@ -113,7 +121,14 @@ pub fn check_string(s: &str, st: &mut Stats) -> Result<(), Failure> {
 
     // keys
     let kb = TomlKeyBuilder::new(s);
-    let kstyles: [(&str, Option<String>); 5] = [
+    let kstyles: [(&str, Option<String>); 8] = [
+        ("str", Some({
+            let mut out = String::new();
+            let _ = <str as toml_write::WriteTomlKey>::write_toml_key(s, &mut out);
+            out
+        })),
+        ("String", Some(s.to_string().to_toml_key())),
+        ("Cow", Some(std::borrow::Cow::Borrowed(s).to_toml_key())),
         ("default", Some(kb.as_default().to_toml_key())),
         ("basic", Some(kb.as_basic().to_toml_key())),
         ("unquoted", kb.as_unquoted().map(|t| t.to_toml_key())),
@@ -227,7 +242,7 @@ fn prop_random(t: &mut Tape, st: &mut Stats) -> Result<(), Failure> {
 
 pub fn run(args: Args) -> ! {
     let mut rep = Report::new("C10", args.tier, args.seed);
-    rep.rule = "exhaustive: every string of length <= L over a 14-class alphabet (\" ' \\ LF CR TAB space NUL ESC DEL # a é 😀), L=5 quick / 6 thorough, each pushed through all 7 value styles and 5 key styles (alone, in `k = tok`, array, inline table, header, dotted position; library and reference decoder); plus every code point below U+3000, the plane / encoding boundaries and a stride of 251 through the rest (all 1,112,064 in the thorough tier) alone and in five small contexts, plus runs of each alphabet character of 30 lengths up to 1025 around the powers of two (alone, with a prefix, a suffix, a newline or quotes around), plus proptest-driven random long strings with quote runs. non-trivial = contains a quote, apostrophe, backslash, newline or control character; distinct by string".into();
+    rep.rule = "exhaustive: every string of length <= L over a 14-class alphabet (\" ' \\ LF CR TAB space NUL ESC DEL # a é 😀), L=5 quick / 6 thorough, each pushed through all 7 value styles and 5 key styles of the builders and the plain str / String / Cow writers (alone, in `k = tok`, array, inline table, header, dotted position; library and reference decoder); plus every code point below U+3000, the plane / encoding boundaries and a stride of 251 through the rest (all 1,112,064 in the thorough tier) alone and in five small contexts, plus runs of each alphabet character of 30 lengths up to 1025 around the powers of two (alone, with a prefix, a suffix, a newline or quotes around), plus proptest-driven random long strings with quote runs. non-trivial = contains a quote, apostrophe, backslash, newline or control character; distinct by string".into();
     rep.assumptions = vec![
         "the reference decoder (tomlref), calibrated on the 562 toml-test 1.0.0 fixtures".into(),
     ];
